@@ -122,8 +122,15 @@ fn run_cells_prop(o: &Opts, rep: &mut Report) {
             "every unary operator × dense pool; every binary operator × all ordered same-type pairs (and DateTime × Duration) of the dense pool: 2^k−1 / 2^k / 2^k+1 of both signs, operands whose product sits at the i128 edge, Decimal mantissa × scale edges, instants and spans at which the nanosecond / microsecond / millisecond / 32-bit accessors of chrono overflow",
         ));
     }
+    if o.prop == "C01" || o.prop == "C02" {
+        pools.push((
+            "cells-calendar",
+            pool::calendar_pool(full),
+            "year / month / day / hour / minute / second of every instant of the calendar pool, the instant rebuilt from its second count, one day added and one second subtracted: the first and the last second of every month's first day and of its 28th…31st (where they exist) for the years next to 1600 / 1900 / 2000 / 2100, the present and year 0 (thorough: every year 1..4000); of 1 Jan, 28 / 29 Feb, 1 Mar and 31 Dec for every year of 1583..2417 and -5..5 and, over chrono's whole range (every 13th 400-year era; thorough: every era), for the years that decide leap-ness (0 1 3 4 99 100 101 399 mod 400)",
+        ));
+    }
     for (name, p, rule) in pools {
-        let mut cs = if name == "cells-dense" { cells::cells_same_type(&p) } else { cells::cells_over(&p) };
+        let mut cs = if name == "cells-dense" { cells::cells_same_type(&p) } else if name == "cells-calendar" { cells::cells_calendar(&p) } else { cells::cells_over(&p) };
         if name == "cells-boundary" && o.prop == "C02" {
             // the string built-ins over the string probe pool (unary), and `contains` / `==` between its members
             let sp = pool::string_probe_pool();
